@@ -12,6 +12,7 @@ Not decided: that node_mapping lookups hit (value-dependent; C12 classes).
 from synq import (walk, show, show_stmts, strs, last_seg, pat_alts, pat_head, tail_expr, matches_of, mcalls, calls,
                   macros, lit_val, AnchorMissing, walk_no_closure)
 import flow
+import re
 
 META = (
     "construction discipline of RQ in the lowering",
@@ -337,10 +338,34 @@ def r7(ctx, rep):
     rep.check(n >= 2, "arms", f"expected the All/All and Single/Single arms in append(), found {n}", file=f["file"], line=f["l"], fn=f["path"])
 
 
+def r8(ctx, rep):
+    rep.rule("C16.R8", "Lineage matches column qualifiers against the input's alias (`input.name`, what the identifiers are built with), never against the table's own name", floor=3)
+    syn = ctx.syn
+    fns = [f for f in syn.fns if f["crate"] == "prqlc" and f["file"].endswith("semantic/resolver/transforms.rs") and f.get("self_short") == "Lineage" and "body" in f]
+    if len(fns) < 5:
+        raise AnchorMissing("impl Lineage in semantic/resolver/transforms.rs")
+    n_cmp, n_build = 0, 0
+    for f in fns:
+        for n in walk(f["body"]):
+            if n.get("k") == "bin" and n["op"] in ("==", "!="):
+                l, r = show(n["lhs"], maxdepth=6), show(n["rhs"], maxdepth=6)
+                if ".table" in l or ".table" in r:
+                    rep.bad(f"qualifier:{f['name']}:table-name", f"`{show(n, maxdepth=6)}` matches a column qualifier against the input's TABLE name: identifiers in a frame are qualified by the input's alias "
+                            "(`from t = tracks` gives `t.x`), so the match fails for every aliased table and the exclusion / lookup is silently dropped", file=f["file"], line=n["l"], fn=f["path"])
+                elif re.search(r"\b(input|i|inp)\.name\b", l + " " + r):
+                    n_cmp += 1
+                    rep.ok(f"qualifier:{f['name']}:alias", nontrivial=True)
+            if n.get("k") == "struct" and last_seg(n["p"]) == "Ident":
+                d = {a: b for a, b in n["f"]}
+                if "path" in d and "input_name" in show(d["path"], maxdepth=6):
+                    n_build += 1
+    rep.check(n_cmp >= 2 and n_build >= 1, "sites", f"expected >= 2 qualifier comparisons against `input.name` and >= 1 identifier built from it in impl Lineage, found {n_cmp} / {n_build}")
+
+
 def pat_fields(pat):
     return [fname for fname, _ in pat.get("f", [])]
 
 
 def run(ctx, rep):
-    for r in (r1, r2, r3_r4, r5, r6, r7):
+    for r in (r1, r2, r3_r4, r5, r6, r7, r8):
         rep.guard(r, ctx)
